@@ -172,10 +172,10 @@ func c27Run(c *core.Ctx, raw json.RawMessage) {
 				gotAll = append(gotAll, m.Events...)
 			}
 			for _, g := range want {
-				wantAll = append(wantAll, g...)
+				wantAll = append(wantAll, g.Events...)
 				nGroups++
-				nEvents += len(g)
-				for _, e := range g {
+				nEvents += len(g.Events)
+				for _, e := range g.Events {
 					kinds[e.Op]++
 				}
 			}
@@ -222,8 +222,8 @@ func c27Run(c *core.Ctx, raw json.RawMessage) {
 				return
 			}
 			for i := range want {
-				if !sameIdents(gotMsgs[i].Events, want[i]) {
-					c.Violate("event-grouping", "%s: group %d holds [%s], commit %d changed [%s]", desc, i, identsOf(gotMsgs[i].Events), i, identsOf(want[i]))
+				if !sameIdents(gotMsgs[i].Events, want[i].Events) {
+					c.Violate("event-grouping", "%s: group %d holds [%s], commit %d changed [%s]", desc, i, identsOf(gotMsgs[i].Events), i, identsOf(want[i].Events))
 					return
 				}
 			}
